@@ -52,6 +52,7 @@ class RmqShaped(kc.CommunicatorHelper):
         outer = kiwipy.Future()
         try:
             result = subscriber(self, msg)
+            self.last_rpc_result = result  # what the subscriber handed back (a communicator may give exactly this to the sender)
         except Exception as exc:  # noqa: BLE001
             wrapped = kiwipy.RemoteException(repr(exc))
             wrapped.__cause__ = exc
